@@ -218,26 +218,6 @@ theorem dinv_newHeader_nil {E : Ext} {w : World} (d : DInv E w) (refs : List Nat
   · rw [unmarshalText_nil]
     exact ⟨dh_foldl_addNewU _ refs _ d1.refs, d1.rgs, d1.pgs, d1.hdrs⟩
 
-/-- the clean operations: construction and editing through the API with well-formed arguments.  Left out: the
-parsers of arbitrary text/bytes (`pa`, `de`, `um`, `hd` with a text) and `Header.Set` (`hs`). -/
-def CleanOp (E : Ext) : Op → Prop
-  | .h0 => True
-  | .hd text _ => text = []
-  | .co _ c => 10 ∉ c ∧ 13 ∉ c
-  | .sh _ ver so go => ver ≠ [] ∧ Clean ver ∧ (0 ≤ so ∧ so ≤ 3) ∧ (0 ≤ go ∧ go ≤ 3)
-  | .nr name d => WFRef E name d
-  | .ng name d => WFRg E name d
-  | .np name d => WFPg name d
-  | .sr _ n => Clean n
-  | .sg _ n => Clean n
-  | .sp _ n => Clean n
-  | .ar _ _ | .rr _ _ | .gr _ _ | .cr _ => True
-  | .ag _ _ | .rg _ _ | .gg _ _ | .cg _ => True
-  | .ap _ _ | .rp _ _ | .gp _ _ | .cp _ => True
-  | .cl _ => True
-  | .mg _ => True
-  | .pa _ | .de _ | .um _ _ | .hs _ _ _ => False
-
 theorem dinv_refs {E : Ext} {w : World} (d : DInv E w) (k : KW RefD) (hk : DH (WFRef E) k.heap) (a b c : List (Option Nat))
     (p : Nat) : DInv E { w with refs := k, rpool := a, gpool := b, ppool := c, nextUri := p } := ⟨hk, d.rgs, d.pgs, d.hdrs⟩
 theorem dinv_rgs {E : Ext} {w : World} (d : DInv E w) (k : KW RgD) (hk : DH (WFRg E) k.heap) (a b c : List (Option Nat))
@@ -246,117 +226,6 @@ theorem dinv_pgs {E : Ext} {w : World} (d : DInv E w) (k : KW PgD) (hk : DH WFPg
     (p : Nat) : DInv E { w with pgs := k, rpool := a, gpool := b, ppool := c, nextUri := p } := ⟨d.refs, d.rgs, hk, d.hdrs⟩
 theorem dinv_pools {E : Ext} {w : World} (d : DInv E w) (a b c : List (Option Nat)) (p : Nat) :
     DInv E { w with rpool := a, gpool := b, ppool := c, nextUri := p } := ⟨d.refs, d.rgs, d.pgs, d.hdrs⟩
-
-/-- every clean operation keeps the data invariant -/
-theorem dinv_step (E : Ext) {w : World} (d : DInv E w) (op : Op) (hc : CleanOp E op) : DInv E (step E w op).w := by
-  cases op with
-  | h0 => exact dinv_pushHeader d _ hdOk_empty
-  | hd text ps =>
-    simp only [CleanOp] at hc; subst hc
-    simp only [step]; split
-    · exact dinv_newHeader_nil d _
-    · exact dinv_pushHeader d _ hdOk_dead
-  | pa text => exact absurd hc (by simp [CleanOp])
-  | de b => exact absurd hc (by simp [CleanOp])
-  | um h text => exact absurd hc (by simp [CleanOp])
-  | hs h t v => exact absurd hc (by simp [CleanOp])
-  | co h c =>
-    simp only [CleanOp] at hc
-    simp only [step]; split
-    · next f hf _ =>
-      have := d.hdrs h f hf
-      refine dinv_setHdr d _ _ ⟨this.hd, this.ver, this.so, this.go, this.other, ?_⟩
-      intro c' hc'
-      rcases List.mem_append.1 hc' with h1 | h1
-      · exact this.comments c' h1
-      · simp only [List.mem_singleton] at h1; subst h1; exact hc
-    · exact d
-  | sh h v so go =>
-    simp only [CleanOp] at hc
-    simp only [step]; split
-    · next f hf _ =>
-      have := d.hdrs h f hf
-      exact dinv_setHdr d _ _ ⟨fun e => absurd e hc.1, hc.2.1, hc.2.2.1, hc.2.2.2, this.other, this.comments⟩
-    · exact d
-  | nr name dd =>
-    simp only [CleanOp] at hc
-    exact dinv_refs d _ (dh_alloc d.refs _ (wfRef_uri_map (fun u => (w.nextUri, u.2)) (fun _ => rfl) hc)) _ _ _ _
-  | ng name dd =>
-    simp only [CleanOp] at hc
-    exact dinv_rgs d _ (dh_alloc d.rgs { owner := none, id := -1, name := name, dat := dd } hc) _ _ _ _
-  | np name dd =>
-    simp only [CleanOp] at hc
-    exact dinv_pgs d _ (dh_alloc d.pgs { owner := none, id := -1, name := name, dat := dd } hc) _ _ _ _
-  | ar h p =>
-    simp only [step]; split
-    · exact dinv_refs d _ (dh_addReference d.refs _ _) _ _ _ _
-    · exact d
-  | rr h p =>
-    simp only [step]; split
-    · exact dinv_refs d _ (dh_remove d.refs _ _) _ _ _ _
-    · exact d
-  | sr p n =>
-    simp only [CleanOp] at hc
-    simp only [step]; split
-    · exact dinv_refs d _ (dh_setName d.refs _ _ (fun _ _ h => wfRef_rename hc h)) _ _ _ _
-    · exact d
-  | gr h i => simp only [step]; split <;> exact dinv_pools d _ _ _ _
-  | cr p =>
-    simp only [step]; split
-    · exact dinv_refs d _ (dh_cloneObj d.refs _ (freshUri w.nextUri) (fun _ _ h => wfRef_uri_map (fun u => (w.nextUri, u.2)) (fun _ => rfl) h)) _ _ _ _
-    · exact dinv_pools d _ _ _ _
-  | ag h p =>
-    simp only [step]; split
-    · exact dinv_rgs d _ (dh_addUniq d.rgs _ _) _ _ _ _
-    · exact d
-  | rg h p =>
-    simp only [step]; split
-    · exact dinv_rgs d _ (dh_remove d.rgs _ _) _ _ _ _
-    · exact d
-  | sg p n =>
-    simp only [CleanOp] at hc
-    simp only [step]; split
-    · exact dinv_rgs d _ (dh_setName d.rgs _ _ (fun _ _ h => wfRg_rename hc h)) _ _ _ _
-    · exact d
-  | gg h i => simp only [step]; split <;> exact dinv_pools d _ _ _ _
-  | cg p =>
-    simp only [step]; split
-    · exact dinv_rgs d _ (dh_cloneObj d.rgs _ _ (fun _ _ h => h)) _ _ _ _
-    · exact dinv_pools d _ _ _ _
-  | ap h p =>
-    simp only [step]; split
-    · exact dinv_pgs d _ (dh_addUniq d.pgs _ _) _ _ _ _
-    · exact d
-  | rp h p =>
-    simp only [step]; split
-    · exact dinv_pgs d _ (dh_remove d.pgs _ _) _ _ _ _
-    · exact d
-  | sp p n =>
-    simp only [CleanOp] at hc
-    simp only [step]; split
-    · exact dinv_pgs d _ (dh_setName d.pgs _ _ (fun _ _ h => wfPg_rename hc h)) _ _ _ _
-    · exact d
-  | gp h i => simp only [step]; split <;> exact dinv_pools d _ _ _ _
-  | cp p =>
-    simp only [step]; split
-    · exact dinv_pgs d _ (dh_cloneObj d.pgs _ _ (fun _ _ h => h)) _ _ _ _
-    · exact dinv_pools d _ _ _ _
-  | cl h =>
-    simp only [step]; split
-    · exact dinv_cloneHeader d _
-    · exact dinv_pushHeader d _ hdOk_dead
-  | mg hs =>
-    simp only [step]; split
-    · exact dinv_mergeHeaders d _
-    · exact dinv_pushHeader d _ hdOk_dead
-
-theorem dinv_run (E : Ext) : ∀ (ops : List Op) (w : World), DInv E w → (∀ op ∈ ops, CleanOp E op) → DInv E (run E w ops) := by
-  intro ops
-  induction ops with
-  | nil => intro w d _; exact d
-  | cons op ops ih =>
-    intro w d hc
-    exact ih _ (dinv_step E d op (hc op List.mem_cons_self)) (fun o ho => hc o (List.mem_cons_of_mem _ ho))
 
 /-- a live header of a world with the data invariant is API-built with canonical URIs -/
 theorem apiBuilt_of_dinv {E : Ext} {w : World} (d : DInv E w) {h : Nat} (hl : live w h = true) :
@@ -402,28 +271,5 @@ theorem wfRg_bare (E : Ext) (n : Bytes) (hn : Clean n) : WFRg E n {} :=
 
 theorem wfPg_bare (n : Bytes) (hn : Clean n) : WFPg n {} :=
   ⟨hn, (by decide), (by decide), (by decide), (by decide), wfOther_nil _⟩
-
-/-- a clean history: references, read groups and programs added, removed and renamed, a comment with a TAB, a clone
-and a merge; its last header (the merge) has two items of each kind -/
-def exClean : List Op :=
-  [.h0, .sh 0 (str "1.6") 3 1,
-   .nr (str "a") { len := 10 }, .nr (str "b") { len := 20 }, .nr (str "c") { len := 30 },
-   .ar 0 0, .ar 0 1, .ar 0 2, .rr 0 1,
-   .ng (str "g1") {}, .ng (str "g2") {}, .ag 0 0, .ag 0 1, .sg 0 (str "x"),
-   .np (str "p1") {}, .np (str "p2") {}, .ap 0 0, .ap 0 1,
-   .co 0 (str "a\tb"), .cl 0, .mg [0, 1]]
-
-theorem exClean_clean : ∀ op ∈ exClean, CleanOp goExt op := by
-  intro op hop
-  simp only [exClean, List.mem_cons, List.not_mem_nil, or_false] at hop
-  rcases hop with rfl | rfl | rfl | rfl | rfl | rfl | rfl | rfl | rfl | rfl | rfl | rfl | rfl | rfl | rfl | rfl | rfl |
-    rfl | rfl | rfl | rfl
-  all_goals first
-    | trivial
-    | exact wfRef_bare _ _ _ (by decide) (by decide)
-    | exact wfRg_bare _ _ (by decide)
-    | exact wfPg_bare _ (by decide)
-    | (show _ ∧ _; decide)
-    | (show Clean _; decide)
 
 end Hts.Model.Header
